@@ -217,11 +217,14 @@ def canon(x):
     return [dict(name=str(x.name), dims=order, vals=vals.tolist(), coords=coords, attrs={k: str(v) for k, v in x.attrs.items()})]
 
 
+IGNORE_ATTRS = [False]
+
+
 def same(a, b):
     if len(a) != len(b):
         return False
     for x, y in zip(a, b):
-        if x["dims"] != y["dims"] or x["attrs"] != y["attrs"] or x["name"] != y["name"]:
+        if x["dims"] != y["dims"] or (x["attrs"] != y["attrs"] and not IGNORE_ATTRS[0]) or x["name"] != y["name"]:
             return False
         if x["coords"].keys() != y["coords"].keys():
             return False
@@ -269,6 +272,7 @@ def make_history(args):
     # one history in eight starts with the pattern "partition a non-flat spectrum, overwrite it in place with a flat non-zero
     # one, partition again" (the watershed's early-return path right after a call that filled its static buffers)
     forced = []
+    attrs_edit = False
     u0 = rng.random()
     if u0 < 0.125:
         forced = [("obs", rng.choice(["ptm3", "ptm3", "smooth", "ptm5"])), ("flat", None), ("obs", "ptm3")]
@@ -277,6 +281,11 @@ def make_history(args):
         # a curve fit on some other object, then statistics of a calm (all-zero) spectrum, which make numpy warn
         forced = [("fo", rng.choice(["fit_jonswap", "fit_gaussian"])), ("calm", None), ("obs", rng.choice(["stats_band", "dpspr", "stats_band", "gamma"]))]
         nsteps = max(nsteps, 4)
+    elif 0.3 <= u0 < 0.36:
+        # the variable is replaced in place by its own energy form (values AND the attributes that call stamped on it), then
+        # observed: results depend on the values and coordinates held now, not on attributes left by an earlier call
+        forced = [("toen", None), ("obs", rng.choice(["to_energy", "to_energy", "hs"]))]
+        nsteps = max(nsteps, 3)
     elif u0 < 0.3:
         # the object is written to a file between two observations
         forced = [("obs", "hs"), ("fo", rng.choice(["to_ww3", "to_swan", "to_netcdf", "to_json"])), ("obs", rng.choice(["hs", "oned", "tm02"]))]
@@ -285,6 +294,20 @@ def make_history(args):
         last = istep == nsteps - 1
         r = rng.random()
         step = forced.pop(0) if forced else None
+        if step and step[0] == "toen":
+            attrs_edit = True
+            ops.append("ee")
+            cur = obj["efth"] if kind == "ds" else obj
+            en = cur.spec.to_energy()
+            E = np.array(en.values, dtype=float)
+            evers.append(E)
+            if kind == "ds":
+                obj["efth"] = en          # Dataset assignment keeps the attributes of `en`
+            else:
+                obj.values[...] = E
+                obj.attrs.update(en.attrs)
+            results.append(None)
+            continue
         if step and step[0] == "fo":
             ops.append(f"fo:{step[1]}")
             foreign_call(obj, step[1], kind)
@@ -400,7 +423,8 @@ def make_history(args):
             rvers.append(dict(conv=conv, key=key))
             ops.append(f"ro:{len(rvers) - 1}")
             results.append(observe_reader(conv, key))
-    return dict(icase=icase, kind=kind, ops=ops, freq=freq, evers=evers, dvers=dvers, fvers=fvers, results=results, rvers=rvers)
+    return dict(icase=icase, kind=kind, ops=ops, freq=freq, evers=evers, dvers=dvers, fvers=fvers, results=results, rvers=rvers,
+                attrs_edit=attrs_edit)
 
 
 def run_check():
@@ -420,8 +444,10 @@ def run_check():
     sub_jobs = []
     fresh_jobs = []
     for h, resp in zip(hs, resps):
+        IGNORE_ATTRS[0] = bool(h.get("attrs_edit"))   # metadata stamped by an earlier call travels with the values: compare values
         toks = resp.split()
-        case = dict(icase=h["icase"], kind=h["kind"], ops=h["ops"], freq=h["freq"].tolist(), n_efth_versions=len(h["evers"]), n_dir_versions=len(h["dvers"]))
+        case = dict(icase=h["icase"], kind=h["kind"], ops=h["ops"], freq=h["freq"].tolist(), n_efth_versions=len(h["evers"]), n_dir_versions=len(h["dvers"]),
+                    attrs_edit=bool(h.get("attrs_edit")))
         if toks[0] != "ok" or len(toks) - 1 != len(h["ops"]):
             ck.disagree("history", f"model response {resp[:200]}", case)
             continue
@@ -481,6 +507,7 @@ def run_check():
     srv = FreshServers(8)
     outs = srv.map([j[0] for j in fresh_jobs])
     for (payload, res, name, case), exp in zip(fresh_jobs, outs):
+        IGNORE_ATTRS[0] = bool(case.get("attrs_edit"))
         if exp is None or (isinstance(exp, str) and exp.startswith("SERVER-ERROR")):
             ck.count("fresh_server_error")
             continue
